@@ -177,6 +177,37 @@ def exec_real(case, part):
                                    f"call {k} of a history on one file name (library re-written in other units in between) gives values that differ "
                                    "from the rows' own values", expected=want, observed=out)
                     break
+        elif case["api"] == "iter":
+            # the iterative sampler on every path / batching / growth schedule with all-zero uniforms (every row with a finite
+            # likelihood is accepted, whatever the batch structure): the same rows, each with its own values, must come back
+            import astropy.units as u
+
+            lib = pb.make_samples(ROWS)
+            lib["ln_prior"] = -np.arange(len(ROWS), dtype=float) - 100.0
+            if case["path"] == "file":
+                lib.write(path, overwrite=True)
+                ps = path
+            else:
+                ps = lib
+            joker.rng = seams.ScriptedGenerator(case.get("seed", 5), uniform_fn=lambda size, k: np.zeros(int(size)))
+            res = joker.iterative_rejection_sample(data, ps, n_requested_samples=len(ROWS), init_batch_size=case["init"], growth_factor=case["growth"],
+                                                   n_batches=case["n_batches"], in_memory=case["path"] == "inmem", return_logprobs=True)
+            P = np.atleast_1d(res["P"].to_value(u.day))
+            acc = [int(np.argmin(np.abs(ROWS[:, 0] - p))) for p in P]
+            ll = np.asarray(res["ln_likelihood"], dtype=float)
+            lp = np.asarray(res["ln_prior"], dtype=float)
+            wacc = [i for i in range(len(ROWS)) if np.isfinite(want[i])]
+            cc = {k2: v for k2, v in case.items() if not k2.startswith("_")}
+            part.record(cc, outcome=(tuple(acc), case["init"], case["growth"]), nontrivial=case["init"] < len(ROWS))
+            if acc != wacc:
+                part.violation(cc, "iterative sampler (every finite row accepted): returned rows depend on the execution path / batch schedule",
+                               expected=wacc, observed=acc)
+            else:
+                for k, i in enumerate(acc):
+                    if ll[k] != want[i] or lp[k] != -i - 100.0:
+                        part.violation(cc, f"iterative sampler: returned row {k} is library row {i} but carries ln_likelihood {ll[k]} / ln_prior {lp[k]}",
+                                       expected=(want[i], -i - 100.0), observed=(ll[k], lp[k]))
+                        break
         elif case["api"] == "rej_rand":
             import astropy.units as u
 
@@ -331,6 +362,12 @@ def build(quick):
                         real.append(dict(kind="real", config=cfg, api=api, path=path, n_batches=nb, pool=["serial"], foreign_pack=True))
                     if api == "rej_rand":
                         real.append(dict(kind="real", config=cfg, api=api, path=path, n_batches=nb, pool=["serial"], n_prior=N - 2))
+        for path in ("inmem", "obj", "file"):
+            for init, growth in ((1, 2), (2, 2), (2, 128), (4, 2), (N, 2)):
+                for nb in ((None,) if path == "inmem" else (None, 2)):
+                    if quick and (init, growth) in ((2, 128), (4, 2)) and path != "inmem":
+                        continue
+                    real.append(dict(kind="real", config=cfg, api="iter", path=path, n_batches=nb, pool=["serial"], init=init, growth=growth))
         # ModelPool x real kernel: a slice (each chunk rebuilds a helper ~1 s)
         for nb, pool in ((3, ["model", 2, 2, True]), (None, ["model", 3, 1, False])) if quick else \
                 ((3, ["model", 2, 2, True]), (None, ["model", 3, 1, False]), (6, ["model", 2, 4, True]), (2, ["model", 5, 1, True])):
@@ -374,7 +411,7 @@ def main():
         "{batch likelihood of single rows and of multi-row batches, posterior draw of each row, test_likelihood_worker, pickling round "
         "trip (one per history)} x 3 prior configurations - NO state merging (the helper has hidden scratch state); every value must be "
         "bitwise the value of that row on a fresh helper; (b) public API on every execution path (in memory / object cache / file) x "
-        "n_batches in {None,1..N+2} x pools (Serial; ModelPool slice) with the real kernel, N=6; (c) every chunk size x chunk order of the "
+        "n_batches in {None,1..N+2} x pools (Serial; ModelPool slice) with the real kernel, N=6, incl. the iterative sampler over initial batch size x growth factor with all-zero uniforms; (c) every chunk size x chunk order of the "
         "modelled pool on the stub kernel; (d) conformance on real MultiPool(2)/(3). Non-trivial: history mixes operations / more than one "
         "batch / a non-default schedule.",
     )
